@@ -233,6 +233,12 @@ endstruc
         add     tmp, tmp3
 
         memcpy_avx_16 m_last, tmp, r, tmp4, iv
+%ifdef SAFE_DATA
+        ;; the copy temporaries hold message bytes; tmp4 is callee-saved
+        ;; and would be stored on the stack by AES_CBC_MAC
+        xor     tmp4, tmp4
+        xor     iv, iv
+%endif
 
         ;; src + n + r
         mov     tmp3, [job + _skey2]
